@@ -128,6 +128,12 @@ def cases(ctx):
     for _ in range(ctx.scale(300, 10000)):
         defined, fns = set(), set()
         lines = [gen_line(rng, defined, fns) for _ in range(rng.randint(1, 12))]
+        # continued entries: several physical lines ending in a backslash are ONE entry whose text is the segments joined by
+        # newlines — a comment at the end of a segment must not swallow the next one
+        if rng.random() < 0.3 and len(lines) >= 2:
+            k = rng.randrange(len(lines) - 1)
+            glue = rng.choice([" // note\n", "\n", " # note\n", "\n// only a comment\n"])
+            lines[k:k + 2] = [lines[k] + glue + lines[k + 1]]
         hist.append(lines)
     # directed histories: a line rejected by the compiler after it defined a shadowing name in a nested block,
     # then uses of the earlier binding at block level and at top level
@@ -140,6 +146,7 @@ def cases(ctx):
             m, o_ = rng.sample(NAMES, 2)
             hist.append([f"let {m} = {rng.randint(1, 9) * 10};", f"let {o_} = {rng.randint(1, 9)};", r_.format(m=m, o=o_), u_.format(m=m, o=o_), f"puts(\"@@O top \", {m});"])
     # the recorded finding, always exercised: a definition in the unexecuted tail of a line that failed at run time
+    hist.append(["let a = 1 // first\nlet b = 2", "puts(\"@@O \", a + b);", "let c = 10 # c\nlet d = c * 2\nputs(\"@@O \", d);"])
     hist.append(["let y = 1;", "let x = 2; [1][9]; let y = 0;", "puts(\"@@O \", y);"])
     hist.append(["let z = 7;", "puts(\"@@O \", z); [1][9]; let z = 0;", "puts(\"@@O \", z + 1);", "let z = 3;", "puts(\"@@O \", z);"])
     # the real parser's AST of every line
@@ -180,7 +187,8 @@ def run_one(exe, c):
     lines = c.extra["lines"]
     text = ""
     for l in lines:
-        text += l + "\n" + 'println("@@M"); eprintln("@@M"); null' + "\n"      # the marker line's own value is null: no echo
+        segs = l.split("\n")
+        text += "".join(sg + " \\\n" for sg in segs[:-1]) + segs[-1] + "\n" + 'println("@@M"); eprintln("@@M"); null' + "\n"      # the marker line's own value is null: no echo
     try:
         p = subprocess.run([exe], input=text.encode("utf-8"), stdout=subprocess.PIPE, stderr=subprocess.PIPE, timeout=30)
     except subprocess.TimeoutExpired:
